@@ -20,6 +20,7 @@ pub struct Plan {
     pub napp: usize,
     pub user_maps: Vec<(u64, u64, String, Vec<u8>)>,   // caller-supplied mappings (start, size, name, identifier)
     pub blame_idx: Option<usize>,   // blame this scenario thread (with or without a crash context)
+    pub retarget_principal: Option<u64>,   // the writer first serves a request as configured, then the caller points the principal mapping elsewhere
     pub direct_chain: bool,         // the caller supplies auxiliary values that lead to the synthetic linker list of the target
     pub exit_between: Option<usize>, // with a history: after the abandoned request this thread is taken by another tracer (it exists, but cannot be attached any more)
 }
@@ -91,12 +92,12 @@ pub fn gen_plan(rng: &mut Rng, focus: &str, tier: &str, case_idx: u64) -> Plan {
         }
     }
     let blame_late = late_fixed || (focus == "c06" && many && !boundary && rng.chance(1, 2));
-    if lost_crash_stack { return Plan { scen: Scenario { threads, lines }, blame_late: false, crash: 1, limit: None, sanitize: false, user_maps: vec![], skip: 6, napp, blame_idx: None, direct_chain: false, exit_between: None }; }
-    if stack_only { return Plan { scen: Scenario { threads, lines }, blame_late: false, crash: 0, limit: None, sanitize: !low_principal, user_maps: vec![], skip: if low_principal { 5 } else { 4 }, napp, blame_idx: None, direct_chain: false, exit_between: None }; }
+    if lost_crash_stack { return Plan { scen: Scenario { threads, lines }, blame_late: false, crash: 1, limit: None, sanitize: false, user_maps: vec![], skip: 6, napp, blame_idx: None, retarget_principal: None, direct_chain: false, exit_between: None }; }
+    if stack_only { return Plan { scen: Scenario { threads, lines }, blame_late: false, crash: 0, limit: None, sanitize: !low_principal, user_maps: vec![], skip: if low_principal { 5 } else { 4 }, napp, blame_idx: None, retarget_principal: None, direct_chain: false, exit_between: None }; }
     Plan { scen: Scenario { threads, lines }, blame_late, crash: if blame_late { 2 } else if force_k1 { 3 } else if focus == "c05" || focus == "c07" { rng.below(4) as u8 } else if rng.chance(1, 3) { rng.range(1, 2) as u8 } else { 0 },
            limit: if blame_late || boundary { Some(1) } else if focus == "c06" { if rng.chance(2, 3) { Some(*rng.pick(&[1u64, 1000, 100_000, 200_000, 300_000, 1 << 30])) } else { None } } else if rng.chance(1, 6) { Some(1) } else { None },
            sanitize: rng.chance(1, if focus == "c12" { 1 } else { 5 }), user_maps: vec![],
-           skip: if focus == "c20" { rng.range(1, 3) as u8 } else if rng.chance(1, 8) { 1 } else { 0 }, napp, blame_idx: None, direct_chain: false, exit_between: None }
+           skip: if focus == "c20" { rng.range(1, 3) as u8 } else if rng.chance(1, 8) { 1 } else { 0 }, napp, blame_idx: None, retarget_principal: None, direct_chain: false, exit_between: None }
 }
 
 pub struct Live { pub target: Target, pub world: World, pub image: Result<Vec<u8>, String>, pub plan: Plan, pub blamed: i32, pub crash: Option<CrashContext>, pub app: Vec<(u64, usize)>, pub principal: Option<u64>, pub events: Vec<String>, pub unattachable: Vec<i32> /* threads another tracer holds: they exist but cannot be attached */ }
@@ -138,6 +139,7 @@ pub fn configure(rng: &mut Rng, plan: &Plan, target: &Target) -> Configured {
         if plan.skip == 4 { principal = Some(anon[1] + 0x80); }
         if plan.skip == 5 { principal = Some(0x2000_0080); }
         if plan.skip == 6 { principal = Some(anon[0] + 0x100); }
+        if plan.skip == 7 { principal = Some(target.fact_hex("blk")); }   // the code every blocked thread executes: all of them reference it
         if let Some(p) = principal { writer.set_principal_mapping_address(p as usize); }
     }
     if !plan.user_maps.is_empty() {
@@ -193,6 +195,7 @@ pub fn run_plan_hist(rng: &mut Rng, plan: Plan, work: &str, fail_first: Option<u
     let target = Target::spawn(&plan.scen, work)?;
     let mut cfg = configure(rng, &plan, &target);
     let mut unattachable: Vec<i32> = Vec::new();
+    if let Some(addr) = plan.retarget_principal { let _ = dump_once(&mut cfg, target.pid); target.settle(); cfg.writer.set_principal_mapping_address(addr as usize); cfg.principal = Some(addr); }
     if let Some(k) = fail_first { let _ = dump_once_failing(&mut cfg, target.pid, Some(k)); target.settle();
         if let Some(i) = plan.exit_between { unsafe { let t = target.tids[i]; libc::ptrace(libc::PTRACE_SEIZE, t, 0, 0); libc::ptrace(libc::PTRACE_INTERRUPT, t, 0, 0); let mut st = 0; libc::waitpid(t, &mut st, libc::__WALL); } unattachable.push(target.tids[i]); } }
     let (image, world, events) = dump_once(&mut cfg, target.pid)?;
@@ -225,7 +228,7 @@ pub fn run_reuse(a: &Args) {
         // serve every request; and a caller who re-targets the principal mapping between two requests gets the new answer
         let supplied = case_idx == 3; let retarget = case_idx == 4;
         if supplied { plan.scen.lines.push("chain 3 0".into()); plan.direct_chain = true; }
-        if retarget { plan.skip = 1; plan.crash = 0; plan.blame_late = false; plan.limit = None; }
+        if retarget { plan.skip = 7; plan.crash = 0; plan.blame_late = false; plan.limit = None; }
         let exiter = if !grow && !held && !supplied && !retarget && case_idx != 1 && rng.chance(1, 2) { plan.scen.threads.push(ThreadSpec { kind: Kind::Exiter, sp_off: 0, pages: 2, name: Some(b"exiter".to_vec()), at: None }); Some(plan.scen.threads.len() - 1) } else { None };
         let mut target = match Target::spawn(&plan.scen, &work) { Ok(t) => t, Err(e) => { out.notes.push(format!("case skipped: {e}")); continue; } };
         let cfg_seed = rng.next();
@@ -497,6 +500,9 @@ pub fn run(a: &Args) {
         let interrupted = focus == "c04" && case_idx == 1;
         let mut client = if interrupted { Some(minidump_writer::FailSpotName::testing_client()) } else { None };
         if let Some(c) = client.as_mut() { c.set_enabled(minidump_writer::FailSpotName::StopProcess, true); INTERRUPT_DUMPER.store(true, std::sync::atomic::Ordering::SeqCst); out.count("run.dumping_thread_interrupted_all_along"); }
+        // one fixed C20 history: the writer has served a request with a principal address inside a mapping; the caller then names an
+        // address that lies in no mapping - every stack is now unreferenced
+        if focus == "c20" && case_idx == 5 { plan.skip = 7; plan.crash = 0; plan.limit = None; plan.blame_late = false; plan.retarget_principal = Some(0x10); out.count("history.principal_retargeted_after_a_request"); }
         let fail_first = if gone || case_idx % 4 == 2 { out.count("history.abandoned_request_first"); Some(rng.range(4, 14) as usize) } else { None };
         match run_plan_hist(&mut rng, plan, &work, fail_first) {
             Ok(lv) => emit(&mut out, &lv, &aspects),
